@@ -244,8 +244,12 @@ def parent_main(a):
     tmpdir = tempfile.mkdtemp(prefix=f"{pid}-{a.tier}-", dir=work)
     jobs = []
     only = set(a.only.split(",")) if a.only else None
+    skipped = []
     for sc in mod.SUBCHECKS:
         if only and sc.name not in only:
+            continue
+        if sc.fuzz_decode is not None and not _atheris_available():
+            skipped.append(f"{sc.name}: atheris is not importable here; coverage-guided sub-check skipped (run ./setup.sh)")
             continue
         if a.tier not in sc.budget and sc.enumerate is None:
             continue
@@ -258,6 +262,13 @@ def parent_main(a):
                 cmd = [sys.executable, "-W", "ignore", "-m", "harness.main", "--child", pid, a.tier,
                        "--sub", sc.name, "--mode", mode, "--shard", f"{s}/{nsh}", "--out", outp,
                        "--seed", str(a.seed)]
+                if sc.fuzz_decode is not None:
+                    runs = int(math.ceil(sc.budget[a.tier] / nsh))
+                    cmd = [sys.executable, "-W", "ignore", "-m", "harness.fuzz", "--property", pid, "--sub", sc.name,
+                           "--runs", str(runs), "--seed", str(core.seed_for(a.seed, pid, sc.name, s) % (2 ** 31)),
+                           "--out", outp, "--corpus", os.path.join(tmpdir, f"corpus.{sc.name}.{s}")]
+                    if s % 2 == 1:
+                        cmd.append("--seed-corpus")
                 env = dict(os.environ)
                 env.update(MODES_ENV[mode])
                 env.update(sc.env)
@@ -390,6 +401,10 @@ def parent_main(a):
     }
     if errors:
         evidence["coverage"]["machinery_errors"] = [e[:500] for e in errors[:5]]
+    if skipped:
+        evidence["coverage"]["skipped_sub_checks"] = skipped
+        for sk in skipped:
+            print("  skipped:", sk)
     if not a.no_evidence:
         evdir = os.path.join(core.VERIF_HOME, "evidence")
         os.makedirs(evdir, exist_ok=True)
@@ -434,6 +449,17 @@ def parent_main(a):
         eprint("GENERATOR DEGENERATE: fewer than 2 non-trivial cases")
         return 2
     return 0
+
+
+_ATHERIS = None
+
+
+def _atheris_available():
+    global _ATHERIS
+    if _ATHERIS is None:
+        _ATHERIS = subprocess.call([sys.executable, "-c", "import atheris"], stdout=subprocess.DEVNULL,
+                                   stderr=subprocess.DEVNULL) == 0
+    return _ATHERIS
 
 
 def _modes(sc, tier):
